@@ -2,6 +2,13 @@
 
 # pid -> dict(category, text, note, technique, design_ref)
 CLAIMED = {
+    "C05": dict(
+        category="proof",
+        technique="Lean 4 model of the DUL reactor at micro-step granularity (actions taken from the C04-proved PS3.8 effects) with per-state theorems and kernel-checked negation witnesses; trace validation in lockstep: generated schedules interpreted step by step on the real reactor thread (hook points) and on the model, state compared after every step",
+        text="partial. Proved (Lean, all states): the model's queue bookkeeping equals the executed code's (C05_bookkeeping_is_code); transport-originated events (PDUs, invalid PDU, connection closed) are defined in every state except Sta1/Sta4 and dispatching one never kills the thread (C05_transport_events_defined, C05_transport_event_safe); a dispatch can kill the thread only through a missing table entry or an action whose input is missing (C05_death_causes); every action that returns to Sta1 sets the kill flag and notifies connection-close exactly once (C05_sta1_closes). The full statement is false of the current code: three kernel-checked witness schedules (C05_neg_*) on which the reactor dies are replayed on the real reactor every run and are known findings (races between the provider and the association thread's stale view; ARTIM stop-after-expiry). Not yet proved: the inductive invariant that turns the per-state theorems into 'no reachable state dispatches a transport event in Sta1/Sta4' for all schedules. Tie: ~900 (quick) adaptively generated schedules of phase-A/phase-B reactor steps and environment steps (peer PDUs valid/invalid, EOF, send failure, ARTIM expiry, local primitives; sync-admissible, peer-only and racy modes; requestor and acceptor) run in lockstep on a real Association/DULServiceProvider thread over real sockets and on the Lean model with a 12-field state comparison after every step; oracle on the real side: in sync-admissible and peer-only schedules the reactor thread never dies, and Sta1 is re-entered only with kill set and one connection-close notification.",
+        note="Not modelled: GIL hand-over points inside one reactor phase (the hooks serialise them), real time (ARTIM expiry is an environment step), the association layer that decides which primitives to issue (its admissible behaviour is approximated by the sync mode: primitives PS3.8 allows, issued at quiescent points). Trusted: Lean kernel, C04's spec, harness/lockstep.py.",
+        design_ref="§5 C05",
+    ),
     "C24": dict(
         category="proof",
         technique="Lean 4 induction over arbitrary peer message lists on an effect-trace model of the SCU wrappers (lock, reactor checkpoint, abort, yields) against a hand-written spec of the documented results + differential run of the real generators driven in-process vs the Lean driver",
